@@ -33,6 +33,8 @@ type PropSpec struct {
 	Notes     string     `json:"notes,omitempty"`
 	Assumptions []string `json:"assumptions,omitempty"`
 	NotDecided  []string `json:"not_decided,omitempty"`
+	SplitOnCells bool `json:"split_on_cells,omitempty"`
+	OpaqueSpecs []string `json:"opaque_specs,omitempty"` // spec functions treated as uninterpreted (with their specfacts) in this check
 	AssumeExclude []string `json:"assume_exclude,omitempty"` // callee clauses ("<callee>/<label>") not assumed in this check
 }
 
@@ -179,6 +181,11 @@ func runCheck(o *checkOpts) (int, error) {
 		e.skipAssume = map[string]bool{}
 		for _, x := range prop.AssumeExclude {
 			e.skipAssume[x] = true
+		}
+		e.splitOnCells = prop.SplitOnCells
+		e.opaqueNames = map[string]bool{}
+		for _, x := range prop.OpaqueSpecs {
+			e.opaqueNames[x] = true
 		}
 		func() {
 			defer func() {
@@ -374,7 +381,7 @@ func decide(r *oblResult, o *checkOpts, work string) {
 	finish(res, "")
 }
 
-const maxCubeVars = 6
+const maxCubeVars = 7
 
 // solveCubes splits the query on (at most maxCubeVars of) the recorded
 // memory-selecting conditions. ok is false when there is nothing to split on
